@@ -145,8 +145,8 @@ class Reg:
         return ",".join(["G", str(g["id"]), enc(g["modpath"]), enc(g["raw"]), enc(g["display"]), str(g["line"]), str(g["col"]),
                          g["opts"], g["kind"], lst(g["vals"]) if g["kind"] != "p" else "-", gen])
 
-    def line(self, acts, ign="n", exact=False, pos=(), skip=(), sort="-"):
-        cfg = ",".join(["C", acts, ign, "e" if exact else "r", lst(pos), lst(skip), sort])
+    def line(self, acts, ign="n", exact=False, pos=(), skip=(), sort="-", threads=()):
+        cfg = ",".join(["C", acts, ign, "e" if exact else "r", lst(pos), lst(skip), sort] + ([lst(threads)] if threads else []))
         return " ".join([cfg] + [self.item_b(b) for b in self.benches] + [self.item_g(g) for g in self.groups])
 
     # ---- approximate display paths (only to aim filters; the model is the reference) ----
